@@ -1,12 +1,307 @@
 /-
 C10 — join / merge / coalesce / add_statics / period_merge obey their relational definitions.
+Only property theorems live here (helper lemmas: `Lemmas/Join.lean`).
 -/
-import Bermuda.Model.Join
-import Bermuda.Spec.C10
+import Bermuda.Lemmas.Join
+import Bermuda.Properties.C01
 namespace Bermuda.Properties.C10
-open Bermuda
+open Bermuda List
+open Bermuda.Properties.C01 (ofCells_perm ofCells_sorted ofCells_ok_iff ofCells_idem Canonical kindsConsistent_perm)
 
-theorem placeholder : joinKey false ({ ps := ⟨2020,1,1⟩, pe := ⟨2020,1,1⟩, ev := ⟨2020,1,1⟩ } : Cell) =
-    ⟨{}, ⟨2020,1,1⟩, ⟨2020,1,1⟩, ⟨2020,1,1⟩, none⟩ := rfl
+/-! ### 1. join: the returned coordinates are the relational set expression -/
+
+/-- **join_keys** (after the `on` reduction): for each of the six join types the coordinates of the
+returned pairs are pairwise distinct (one pair per coordinate), every pair has a coordinate, and a
+coordinate is returned iff it satisfies the set expression of the join type on the operands' key
+sets (full = ∪, inner = ∩, left, right, left_anti = A \ B, right_anti = B \ A).
+No distinct-keys hypothesis is needed: this holds for the dict-based algorithm as is. -/
+theorem join_keys (ty : JoinType) (a b : List Cell) :
+    let inc := isIncremental a
+    let ks := (joinCore ty a b).map (Spec.pairKey? inc)
+    ks.Nodup ∧ none ∉ ks ∧
+    ∀ k, some k ∈ ks ↔
+      Spec.setExpr ty (a.map (joinKey inc)) (b.map (joinKey inc)) k = true := by
+  intro inc ks
+  have hks : ks = ((allCoordinates a b).filter (Spec.setExpr ty (a.map (joinKey inc))
+      (b.map (joinKey inc)))).map some := joinCore_keys ty a b
+  rw [hks]
+  refine ⟨?_, by simp, fun k => ?_⟩
+  · exact List.Pairwise.map some (fun x y h => by simpa using h) ((nodup_allCoordinates a b).filter _)
+  · simp only [List.mem_map, List.mem_filter, Option.some.injEq, exists_eq_right]
+    exact ⟨fun h => h.2, fun h => ⟨mem_allCoordinates.mpr (setExpr_mem h), h⟩⟩
+
+
+/-! ### 2. the `join` wrapper: class check, `on` reduction -/
+
+theorem join_ok {ty : JoinType} {on : Option (List String)} {a b : List Cell} {ps : List CellPair}
+    (h : join (some ty) on a b = .ok ps) :
+    kindMismatch a b = false ∧
+    ∃ a' b', reduceOn on a = .ok a' ∧ reduceOn on b = .ok b' ∧ ps = joinCore ty a' b' := by
+  unfold join at h
+  simp only [bind, Except.bind, pure, Except.pure, throw, throwThe, MonadExceptOf.throw] at h
+  split at h
+  · cases h
+  · rename_i hk
+    have hkm : kindMismatch a b = false := by simpa using hk
+    split at h
+    · cases h
+    · rename_i a' ha
+      split at h
+      · cases h
+      · rename_i b' hb
+        cases h
+        exact ⟨hkm, a', b', ha, hb, rfl⟩
+
+/-- a class mismatch of two non-empty operands is a `ValueError`, whatever the other arguments -/
+theorem join_kind_mismatch {ty : Option JoinType} {on : Option (List String)} {a b : List Cell}
+    (h : kindMismatch a b = true) : join ty on a b = .error .valueError := by
+  unfold join
+  simp [h, bind, Except.bind, throw, throwThe, MonadExceptOf.throw]
+
+/-- an unrecognised join type is a `ValueError` (if nothing raised earlier it is raised last) -/
+theorem join_unknown_type {on : Option (List String)} {a b : List Cell} :
+    ∃ e, join none on a b = .error e := by
+  unfold join
+  simp only [bind, Except.bind, throw, throwThe, MonadExceptOf.throw]
+  split
+  · exact ⟨_, rfl⟩
+  · split
+    · exact ⟨_, rfl⟩
+    · split
+      · exact ⟨_, rfl⟩
+      · exact ⟨_, rfl⟩
+
+theorem reduceOn_perm {on : Option (List String)} {a a' : List Cell}
+    (h : reduceOn on a = .ok a') : a'.Perm (Spec.onCells on a) := by
+  unfold reduceOn at h
+  unfold Spec.onCells
+  split at h
+  · exact ofCells_perm h
+  · rename_i hh
+    cases h; split
+    · rename_i x xs; exact absurd rfl (hh x xs)
+    · exact List.Perm.refl _
+
+theorem isIncremental_of_consistent {l : List Cell} (h : kindsConsistent l = true) :
+    isIncremental l = (!l.isEmpty && l.all (·.kind == .incremental)) := by
+  cases l with
+  | nil => rfl
+  | cons c l =>
+    simp only [isIncremental, List.isEmpty_cons, Bool.not_false, Bool.true_and, List.all_cons]
+    unfold kindsConsistent at h
+    simp only [List.all_cons, Bool.or_eq_true, Bool.and_eq_true] at h
+    cases hk : c.kind <;> simp_all
+
+theorem isIncremental_perm {l l' : List Cell} (hp : l.Perm l') (h : kindsConsistent l = true) :
+    isIncremental l' = isIncremental l := by
+  rw [isIncremental_of_consistent h, isIncremental_of_consistent ((kindsConsistent_perm hp) ▸ h)]
+  congr 1
+  · cases l <;> cases l' <;> simp_all
+  · rw [Bool.eq_iff_iff]; simp only [List.all_eq_true, hp.mem_iff]
+
+theorem reduceOn_isIncremental {on : Option (List String)} {a a' : List Cell}
+    (h : reduceOn on a = .ok a') : isIncremental a' = isIncremental a := by
+  unfold reduceOn at h
+  split at h
+  · rename_i x xs
+    have hc : kindsConsistent (a.map (·.selectOn (x :: xs))) = true :=
+      (ofCells_ok_iff _).mp ⟨a', h⟩
+    rw [isIncremental_perm (ofCells_perm h).symm hc]
+    cases a <;> rfl
+  · cases h; rfl
+
+
+theorem setExpr_congr {ty : JoinType} {A B A' B' : List Coord} (hA : ∀ k, k ∈ A ↔ k ∈ A')
+    (hB : ∀ k, k ∈ B ↔ k ∈ B') (k : Coord) : Spec.setExpr ty A B k = Spec.setExpr ty A' B' k := by
+  have h1 : A.contains k = A'.contains k := by
+    rw [Bool.eq_iff_iff, List.contains_iff_mem, List.contains_iff_mem]; exact hA k
+  have h2 : B.contains k = B'.contains k := by
+    rw [Bool.eq_iff_iff, List.contains_iff_mem, List.contains_iff_mem]; exact hB k
+  cases ty <;> simp only [Spec.setExpr, h1, h2]
+
+/-- **join_keys** for `join` itself, `on` included: the coordinates of the result are those of the
+set expression on the keys of the operands *with metadata reduced to `on`*. -/
+theorem join_keys_on {ty : JoinType} {on : Option (List String)} {a b : List Cell}
+    {ps : List CellPair} (h : join (some ty) on a b = .ok ps) :
+    let inc := isIncremental a
+    let ks := ps.map (Spec.pairKey? inc)
+    ks.Nodup ∧ none ∉ ks ∧
+    ∀ k, some k ∈ ks ↔
+      Spec.setExpr ty ((Spec.onCells on a).map (joinKey inc)) ((Spec.onCells on b).map (joinKey inc)) k
+        = true := by
+  obtain ⟨_, a', b', ha, hb, rfl⟩ := join_ok h
+  have hi := reduceOn_isIncremental ha
+  have := join_keys ty a' b'
+  rw [hi] at this
+  refine ⟨this.1, this.2.1, fun k => ?_⟩
+  rw [this.2.2 k, setExpr_congr (fun k => ((reduceOn_perm ha).map _).mem_iff)
+    (fun k => ((reduceOn_perm hb).map _).mem_iff)]
+
+/-! ### 3. join carries the original cells, metadata reduced to `on` -/
+
+theorem mem_of_mem_joinCore {ty : JoinType} {a b : List Cell} {p : CellPair}
+    (hp : p ∈ joinCore ty a b) :
+    (∀ c, p.1 = some c → c ∈ a) ∧ (∀ c, p.2 = some c → c ∈ b) := by
+  rw [joinCore_eq] at hp
+  obtain ⟨k, _, rfl⟩ := List.mem_map.mp hp
+  exact ⟨fun c hc => (dictGet_some hc).1, fun c hc => (dictGet_some hc).1⟩
+
+/-- **join_carries_originals**: every cell in a returned pair is a cell of the corresponding
+operand (left cell from the left operand, right cell from the right one), unchanged except that its
+metadata is reduced to `on` when `on` is given. -/
+theorem join_carries_originals {ty : JoinType} {on : Option (List String)} {a b : List Cell}
+    {ps : List CellPair} (h : join (some ty) on a b = .ok ps) :
+    ∀ p ∈ ps, (∀ c, p.1 = some c → c ∈ Spec.onCells on a) ∧
+              (∀ c, p.2 = some c → c ∈ Spec.onCells on b) := by
+  obtain ⟨_, a', b', ha, hb, rfl⟩ := join_ok h
+  intro p hp
+  have := mem_of_mem_joinCore hp
+  exact ⟨fun c hc => (reduceOn_perm ha).mem_iff.mp (this.1 c hc),
+         fun c hc => (reduceOn_perm hb).mem_iff.mp (this.2 c hc)⟩
+
+/-- **join_on_metadata**: with a non-empty `on`, every returned cell is `c₀.selectOn on` for an
+original cell `c₀`: attributes outside `on` are `None`, details keep only the keys in `on`,
+everything else (dates, values, class) is `c₀`'s. -/
+theorem join_on_metadata {ty : JoinType} {x : String} {xs : List String} {a b : List Cell}
+    {ps : List CellPair} (h : join (some ty) (some (x :: xs)) a b = .ok ps) :
+    ∀ p ∈ ps, (∀ c, p.1 = some c → ∃ c₀ ∈ a, c = c₀.selectOn (x :: xs)) ∧
+              (∀ c, p.2 = some c → ∃ c₀ ∈ b, c = c₀.selectOn (x :: xs)) := by
+  intro p hp
+  have := join_carries_originals h p hp
+  simp only [Spec.onCells, List.mem_map] at this
+  exact ⟨fun c hc => (this.1 c hc).imp fun c₀ h => ⟨h.1, h.2.symm⟩,
+         fun c hc => (this.2 c hc).imp fun c₀ h => ⟨h.1, h.2.symm⟩⟩
+
+/-- without `on` (or with the falsy `[]`) the cells are the operands' own cells -/
+theorem join_no_on {ty : JoinType} {a b : List Cell} {ps : List CellPair}
+    (h : join (some ty) none a b = .ok ps) : ps = joinCore ty a b := by
+  obtain ⟨_, a', b', ha, hb, rfl⟩ := join_ok h
+  cases ha; cases hb; rfl
+
+theorem cellAt_eq_some_iff {inc : Bool} {t : List Cell} (hn : (t.map (joinKey inc)).Nodup)
+    {k : Coord} {c : Cell} : Spec.cellAt inc t k = some c ↔ c ∈ t ∧ joinKey inc c = k := by
+  rw [← dictGet_eq_cellAt hn]
+  constructor
+  · exact dictGet_some
+  · rintro ⟨hc, rfl⟩
+    induction t with
+    | nil => cases hc
+    | cons d t ih =>
+      rw [List.map_cons, List.nodup_cons] at hn
+      simp only [dictGet]
+      rcases List.mem_cons.mp hc with rfl | hc
+      · rw [dictGet_none_of_not_mem hn.1]; simp
+      · rw [ih hn.2 hc]
+
+theorem cellAt_perm {inc : Bool} {t t' : List Cell} (hn : (t.map (joinKey inc)).Nodup)
+    (hp : t.Perm t') (k : Coord) : Spec.cellAt inc t k = Spec.cellAt inc t' k := by
+  have hn' : (t'.map (joinKey inc)).Nodup := (hp.map _).nodup_iff.mp hn
+  cases h : Spec.cellAt inc t' k with
+  | some c =>
+    rw [cellAt_eq_some_iff hn]
+    have := (cellAt_eq_some_iff hn').mp h
+    exact ⟨hp.mem_iff.mpr this.1, this.2⟩
+  | none =>
+    cases h2 : Spec.cellAt inc t k with
+    | none => rfl
+    | some c =>
+      have := (cellAt_eq_some_iff hn).mp h2
+      rw [(cellAt_eq_some_iff hn').mpr ⟨hp.mem_iff.mp this.1, this.2⟩] at h
+      cases h
+
+/-- **join pairs are exactly (left cell at k, right cell at k)** under the distinct-keys
+hypothesis: the pair returned for coordinate `k` holds *the* cell of each (reduced) operand at `k`,
+or `None` where the operand has none. -/
+theorem join_pairs_exact {ty : JoinType} {on : Option (List String)} {a b : List Cell}
+    {ps : List CellPair} (h : join (some ty) on a b = .ok ps)
+    (hna : ((Spec.onCells on a).map (joinKey (isIncremental a))).Nodup)
+    (hnb : ((Spec.onCells on b).map (joinKey (isIncremental a))).Nodup) :
+    ∀ p ∈ ps, ∃ k, Spec.pairKey? (isIncremental a) p = some k ∧
+      p = (Spec.cellAt (isIncremental a) (Spec.onCells on a) k,
+           Spec.cellAt (isIncremental a) (Spec.onCells on b) k) := by
+  obtain ⟨_, a', b', ha, hb, rfl⟩ := join_ok h
+  have hi := reduceOn_isIncremental ha
+  have hpa := reduceOn_perm ha
+  have hpb := reduceOn_perm hb
+  have hna' : (a'.map (joinKey (isIncremental a))).Nodup := (hpa.map _).nodup_iff.mpr hna
+  have hnb' : (b'.map (joinKey (isIncremental a))).Nodup := (hpb.map _).nodup_iff.mpr hnb
+  intro p hp
+  rw [joinCore_eq] at hp
+  obtain ⟨k, hk, rfl⟩ := List.mem_map.mp hp
+  refine ⟨k, ?_, ?_⟩
+  · rw [← hi]; exact pairKey_pairOf (List.mem_filter.mp hk).1
+  · rw [hi]; unfold pairOf
+    rw [dictGet_eq_cellAt hna', dictGet_eq_cellAt hnb', cellAt_perm hna' hpa, cellAt_perm hnb' hpb]
+
+/-! ### 4. merge -/
+
+theorem merge_ok {ty : JoinType} {on : Option (List String)} {a b out : List Cell}
+    (h : merge (some ty) on a b = .ok out) :
+    ∃ ps, join (some ty) on a b = .ok ps ∧ out.Perm (ps.filterMap mergeCellPair) ∧
+      out.Pairwise (fun x y => Cell.le x y) := by
+  unfold merge at h
+  simp only [bind, Except.bind] at h
+  split at h
+  · cases h
+  · rename_i ps hps
+    exact ⟨ps, hps, ofCells_perm h, ofCells_sorted h⟩
+
+/-- the cells of the merge are exactly the images of the joined pairs -/
+theorem merge_cells {ty : JoinType} {on : Option (List String)} {a b out : List Cell}
+    {ps : List CellPair} (h : merge (some ty) on a b = .ok out)
+    (hj : join (some ty) on a b = .ok ps) (c : Cell) :
+    c ∈ out ↔ ∃ p ∈ ps, mergeCellPair p = some c := by
+  obtain ⟨ps', hj', hperm, _⟩ := merge_ok h
+  rw [hj] at hj'; cases hj'
+  rw [hperm.mem_iff, List.mem_filterMap]
+
+/-- **merge_values**: a coordinate present on both sides carries the LEFT cell's frame (class,
+dates, reduced metadata) and the right-biased union of the two value dicts: every field of either
+cell is present, and a field present on the right has the right value. -/
+theorem merge_values {ty : JoinType} {on : Option (List String)} {a b out : List Cell}
+    {ps : List CellPair} (h : merge (some ty) on a b = .ok out)
+    (hj : join (some ty) on a b = .ok ps) {x y : Cell} (hp : (some x, some y) ∈ ps)
+    (hy : y.values.WF) :
+    ∃ c ∈ out, c = { x with values := c.values } ∧
+      (∀ f, c.values.get? f = (y.values.get? f).or (x.values.get? f)) ∧
+      (∀ f, f ∈ c.values.keys ↔ f ∈ x.values.keys ∨ f ∈ y.values.keys) := by
+  refine ⟨{ x with values := x.values.union y.values }, ?_, rfl, ?_, ?_⟩
+  · exact (merge_cells h hj _).mpr ⟨_, hp, rfl⟩
+  · exact fun f => Dict.get?_union x.values y.values hy f
+  · exact fun f => Dict.mem_keys_union x.values y.values f
+
+/-- **merge_unmatched_id**: a coordinate present on one side only carries that side's cell
+unchanged. -/
+theorem merge_unmatched_id {ty : JoinType} {on : Option (List String)} {a b out : List Cell}
+    {ps : List CellPair} (h : merge (some ty) on a b = .ok out)
+    (hj : join (some ty) on a b = .ok ps) :
+    (∀ x, (some x, none) ∈ ps → x ∈ out) ∧ (∀ y, (none, some y) ∈ ps → y ∈ out) :=
+  ⟨fun x hx => (merge_cells h hj x).mpr ⟨_, hx, rfl⟩,
+   fun y hy => (merge_cells h hj y).mpr ⟨_, hy, rfl⟩⟩
+
+theorem mergeCellPair_isSome {inc : Bool} {p : CellPair} (h : Spec.pairKey? inc p ≠ none) :
+    (mergeCellPair p).isSome = true := by
+  obtain ⟨p1, p2⟩ := p
+  cases p1 <;> cases p2 <;> simp_all [mergeCellPair, Spec.pairKey?]
+
+/-- one merged cell per joined pair: `(None, None)` never occurs, nothing is dropped -/
+theorem merge_length {ty : JoinType} {on : Option (List String)} {a b out : List Cell}
+    {ps : List CellPair} (h : merge (some ty) on a b = .ok out)
+    (hj : join (some ty) on a b = .ok ps) : out.length = ps.length := by
+  obtain ⟨ps', hj', hperm, _⟩ := merge_ok h
+  rw [hj] at hj'; cases hj'
+  rw [hperm.length_eq]
+  have hk := (join_keys_on hj).2.1
+  have : ∀ p ∈ ps, (mergeCellPair p).isSome = true := fun p hp =>
+    mergeCellPair_isSome (inc := isIncremental a) (fun hn => hk (List.mem_map.mpr ⟨p, hp, hn⟩))
+  clear hperm hj h hk
+  induction ps with
+  | nil => rfl
+  | cons p ps ih =>
+    have hp := this p (by simp)
+    rw [List.filterMap_cons]
+    cases hm : mergeCellPair p with
+    | none => rw [hm] at hp; cases hp
+    | some c => simp [ih (fun q hq => this q (by simp [hq]))]
 
 end Bermuda.Properties.C10
